@@ -49,6 +49,11 @@ def subjects(tier):
     for g in ("sm", "o2j"):
         for pre in [(None,), ("stack",), ("rate",)]:
             out.append(("set", g, "plain", pre))
+    # size: charts of 300 notes (thorough: 1100 as well)
+    for g in charts.GAMES:
+        out.append(("map", g, "large", (None,)))
+        if tier == "thorough":
+            out.append(("map", g, "large1100", (None,)))
     return out
 
 
